@@ -1018,4 +1018,6 @@ def run(P, R, tier):
     _c17.wiring(P, _Remap(R, {'C17.WIRE.1': 'C14.WIRE.2'}, keys=('sigusr1',)))
     # error messages of any length (a long path, a long value) are formatted from an intact argument list
     rules.va_list_once(P, R, 'C14.MPT.6')
+    # a list in the file is appended to item by item: the vector it grows in really grows
+    rules.vector_growth(P, R, 'C14.BND.5')
     return EXPLANATION, ASSUMPTIONS
